@@ -44,7 +44,9 @@ RULE = (
     "call writes); seq: 4-10 random operations (entry points, listing getters, close, open, fetch_active_workspace, save_as, "
     "path2workspace, monitored_directory_copy, gc) on one mode='r' workspace, ~25% with an explicit writable re-open or a held "
     "second handle (OSError fallback); helper: path2workspace, InputFile.read_ui_json, monitored_directory_copy from r / closed "
-    "/ r+ sources.  non-trivial = the case reaches Workspace._io_call with a request for a writable mode"
+    "/ r+ sources, chained exports inside the monitoring directory under a stepped clock; span sequences: explicit writable spans "
+    "followed by implicit re-opens, every read-only span hashed; fallback entries: workspace built 'r+' whose open fell back to "
+    "'r' under a held handle.  non-trivial = the case reaches Workspace._io_call with a request for a writable mode"
 )
 LEVEL_TEXT = (
     "Proved in Coq for ALL operation sequences without an explicit writable re-open on a workspace built with mode 'r': the "
@@ -52,7 +54,8 @@ LEVEL_TEXT = (
     "contains a writer routine is refused (read-only error, or closed-file error when closed); the hypothesis that the "
     "operations' _io_call's are gated is itself a theorem over the complete table of call sites extracted by ast from the "
     "current source on every run (vm_compute; 75 rows today, 23 _io_call sites, 32 fetch_h5_handle sites, H5Reader free of "
-    "mutating statements). Helpers: path2workspace and monitored_directory_copy modelled and proved read-only. Partial: "
+    "mutating statements). Also proved: the constructor mode is invariant over any history, a handle of a workspace built 'r' "
+    "becomes writable only by an explicit open(writable mode), and every step of a read-only span leaves the file unchanged. Helpers: path2workspace and monitored_directory_copy modelled and proved read-only. Partial: "
     "byte-level immutability rests on h5py's mode enforcement and is observed (SHA-256 before/after, geoh5.mode, exception "
     "kind) for every public mutating entry point (~380 by reflection, each also run on an r+ twin) and random sequences; "
     "model and code are compared per case inside Coq, including the static site of every traced _io_call."
@@ -128,7 +131,8 @@ MUTATORS = [
     ("workspace", "Workspace", "remove_entity", "method"), ("workspace", "Workspace", "create_entity", "method"),
     ("pg", "PropertyGroup", "add_properties", "method"), ("type_float", "DataType", "units", "setter"),
     ("surf", "CellObject", "remove_cells", "method"), ("drillhole", "Drillhole", "add_data", "method"),
-    ("dhgroup", "Concatenator", "copy", "method"), ("cdh", "Entity", "name", "setter"), ("pts", "Entity", "parent", "setter"),
+    ("dhgroup", "Entity", "name", "setter"), ("cdh", "Entity", "name", "setter"),   # (no Concatenator.copy here: the model's
+    # number of concatenator groups is constant per case; the copy is driven as a single entry point) ("pts", "Entity", "parent", "setter"),
     ("pts", "ObjectBase", "add_comment", "method"), ("geoimage", "GeoImage", "image", "setter"),
 ]
 READERS = [
@@ -598,12 +602,24 @@ RP_MARK = '{| c_fn := "<repack flag set outside _io_call>"; c_writer := false; c
 
 def c_calls_rp(rec, calls=None):
     """the calls of one operation; when the operation set Workspace.repack in Python code outside any _io_call (concatenated
-    attributes edited in memory) a pseudo reader call carries the flag into the model"""
+    attributes edited in memory -- also when the write that follows is refused) a pseudo reader call carries the flag into
+    the model; it is placed first (the flag only matters to the next close)"""
     calls = rec.get("calls", []) if calls is None else calls
     items = [c_call(c) for c in calls]
     if (rec.get("repack_after") and not rec.get("repack_before") and not any(len(c) > 6 and c[6] for c in calls)
-            and rec.get("exc") is None and rec.get("handle_after") not in (None, "closed")):
-        items.append(RP_MARK)
+            and rec.get("handle_before") not in (None, "closed")):
+        items.insert(0, RP_MARK)
+    return clist(items)
+
+
+def c_body_rp(rec):
+    """body of a fetch_active_workspace block (calls not issued by the helper's own close), with the repack marker when the body
+    set the flag outside _io_call: seen either in the flag afterwards or in the refresh the helper's closing close() performed"""
+    body = _body_calls(rec)
+    items = [c_call(c) for c in body]
+    refreshed = any(len(c) > 7 and c[7] and c[0] == "H5Writer.update_field" for c in rec.get("calls", []))
+    if (not rec.get("repack_before")) and not any(len(c) > 6 and c[6] for c in body) and (rec.get("repack_after") or refreshed):
+        items.insert(0, RP_MARK)
     return clist(items)
 
 
@@ -653,13 +669,13 @@ def op_term(op, rec):
     if k == "open":
         return "(OpenM %s)" % ("None" if op["mode"] is None else f"(Some {MODES[op['mode']]})")
     if k == "fetch_active":
-        return f"(FetchActive {MODES[op['mode']]} {c_calls(_body_calls(rec))})"
+        return f"(FetchActive {MODES[op['mode']]} {c_body_rp(rec)})"
     if k == "save_as":
         return "SaveAs"
     if k == "path2workspace":
         return "Path2Workspace"
     if k == "monitored_copy":
-        return f"(MonitoredCopy {c_calls(_body_calls(rec))})"
+        return f"(MonitoredCopy {c_body_rp(rec)})"
     return "(Calls [])"
 
 
